@@ -120,6 +120,16 @@ func containerPrograms(thorough bool) []string {
 			}
 		}
 	}
+	// every codec over maps, sets and lists of maps (rows): what a codec lays out from a map must not follow
+	// the map's iteration order
+	for _, codec := range []string{"base64", "base32", "hex", "json", "csv", "urlquery", "gzip"} {
+		for _, x := range []string{"M", "S", "MX", "[M, MX]", "[MX, M, MF]", "[[1, 2], M]", "{\"rows\": [M, MX], \"k\": S}"} {
+			out = append(out, wrap("encode("+x+", \""+codec+"\")"))
+			if thorough {
+				out = append(out, wrap("decode(encode("+x+", \""+codec+"\"), \""+codec+"\")"))
+			}
+		}
+	}
 	for _, m := range containerMethodNames() {
 		for _, c := range []string{"SF", "SX", "MF", "MX"} {
 			out = append(out, wrap(c+"."+m+"()"))
